@@ -1697,13 +1697,18 @@ def option_families(T):
 OPT_FAMS = []
 
 
+OPTION_THEN_VALUE = re.compile(r"'--\w+'(?P<before>[^',]*),(?P<after>[^']*)f?'(?!--|'')")
+
+
 def w_option(item):
-    """item: (family index, skeleton index, dev, full, gap kinds, cfg, base).  -> (summary, number of cases whose output differs
-    from the output under `base`, the configuration without the option)"""
+    """item: (family index, skeleton index, dev, full, gap kinds, cfg, base).  -> (summary, number of cases (dev <= 1) whose output
+    differs from the output under `base`, the configuration without the option; counters of the judged cases in which an option
+    string is followed by a value string with a comment / a newline / a line continuation in the gap before / after the comma)"""
     fi, idx, dev, full, only, cfg, base = item
     toks = OPT_FAMS[fi][2][idx][1]
     seen = set()
     eff = [0]
+    cnt = {}
 
     def gen():
         for src in variants(toks, dev, full, only=set(only) if only else None):
@@ -1716,8 +1721,17 @@ def w_option(item):
                     eff[0] += real_format(src, base) != out
                 except MesonException:
                     pass
+            if st in ('ok', 'viol'):
+                for m in OPTION_THEN_VALUE.finditer(src):
+                    for where in ('before', 'after'):
+                        g = m.group(where)
+                        for what, hit in (('comment', '#' in g), ('continuation', '\\' in g), ('newline', '\n' in g and '#' not in g and '\\' not in g),
+                                          ('nothing or blanks', not g.strip() and '\n' not in g)):
+                            if hit:
+                                k = '%s %s the comma' % (what, where)
+                                cnt[k] = cnt.get(k, 0) + 1
             yield src, cfg, st, v, cls
-    return summarise(gen()), eff[0]
+    return summarise(gen()), eff[0], cnt
 
 
 # ============================================================================================================
@@ -2038,14 +2052,16 @@ def main():
                         for idx in range(len(skels) if nsk is None else min(nsk, len(skels))):
                             items.append((fi, idx, dev, full, only, cfg, base))
         per = {}
-        for item, (s, eff) in zip(items, pmap(w_option, items, chunksize=4)):
+        for item, (s, eff, cnt) in zip(items, pmap(w_option, items, chunksize=4)):
             opt, name = OPT_FAMS[item[0]][:2]
-            e = per.setdefault(opt, {'s': empty_summary(), 'effect': 0, 'fams': {}, 'cfgs': set(), 'skels': set()})
+            e = per.setdefault(opt, {'s': empty_summary(), 'effect': 0, 'fams': {}, 'cfgs': set(), 'skels': set(), 'cnt': {}})
             merge(e['s'], s)
             e['effect'] += eff
             e['fams'][name] = e['fams'].get(name, 0) + s['n']
             e['cfgs'].add(cfg_key(item[5]))
             e['skels'].add((item[0], item[1]))
+            for k, v in cnt.items():
+                e['cnt'][k] = e['cnt'].get(k, 0) + v
         for opt in sorted(per):
             e = per[opt]
             report(ck, 'options:' + opt, e['s'])
@@ -2056,12 +2072,14 @@ def main():
             need(e['s']['ok'] > 0, 'options: no case of the family of %s was judged' % opt)
         missing = sorted(set(DOCUMENTED_OPTIONS) - set(per) - {'end_of_line'})      # (end_of_line: the cli part, see there)
         need(not missing, 'options: documented options without a family: %r' % missing)
-        # the situation group_arg_value is about, with something on the comma between option and value
-        gv = [render(t, {i: ' #c\n' for i in range(len(t)) if t[i][0] == "'v'" and t[i - 1][0] == ',' and t[i - 2][0] == "'--o'"})
-              for _, t in OPT_FAMS[0][2]]
-        ncm = sum(1 for x in gv if re.search(r"'--o', #c\n'v'", x))
-        ck.part('options:group_arg_value', skeletons_with_option_then_value=ncm)
-        need(ncm > 0, 'options: group_arg_value: no argument list with an option string followed by a value')
+        # the situation group_arg_value is about (an option string followed by a value string), with every kind of trivia on
+        # either side of the comma between the two
+        gcnt = per.get('group_arg_value', {'cnt': {}})['cnt']
+        ck.part('options:group_arg_value', option_followed_by_value_with=dict(sorted(gcnt.items())))
+        for what in ('comment', 'newline', 'continuation', 'nothing or blanks'):
+            for where in ('before', 'after'):
+                need(gcnt.get('%s %s the comma' % (what, where), 0) > 0,
+                     'options: group_arg_value: no argument list with an option followed by a value and %s %s the comma' % (what, where))
 
     # ---- ill-formed but accepted -----------------------------------------------------------------------------
     if ck.want('illformed'):
